@@ -1,3 +1,4 @@
 """Import every contract module (registers them in pyvc.contract.REG)."""
 from contracts import sort_enforcement, chunk, general  # noqa
 from contracts import plugin  # noqa
+from contracts import pulse  # noqa
